@@ -403,7 +403,23 @@ class Rewriter:
             text = self.r16_slice_eq(scope, text)
         if "R23" in u.rw:
             text = self.r23_option_closures(scope, text)
+        if "R25" in u.rw:
+            text = self.r25_ref_compare(scope, text)
         return text
+
+    def r25_ref_compare(self, scope, text):
+        """`x == &Path::Variant` / `x != &Path::Variant` (comparison through references) -> `*x == Path::Variant`"""
+        rx = re.compile(r"(?<![\w.*&])(\w+)\s*(==|!=)\s*&(\w+(?:::\w+)+)\b(?!\s*\()")
+        m = rl.mask(text)
+        out = []
+        last = 0
+        for mt in rx.finditer(m):
+            new = "*%s %s %s" % (mt.group(1), mt.group(2), mt.group(3))
+            self.note("R25", scope, text[mt.start():mt.end()], new)
+            out.append(text[last:mt.start()] + new)
+            last = mt.end()
+        out.append(text[last:])
+        return "".join(out)
 
     def r23_option_closures(self, scope, text):
         """`RECV.is_some_and(|v| E)` -> `(match RECV { Some(v) => E, None => false })`,
